@@ -146,7 +146,14 @@ impl Setsum {
             let idx = col * SETSUM_BYTES_PER_COLUMN;
             let mut buf = [0u8; 4];
             buf.clone_from_slice(&digest[idx..idx + 4]);
-            *item = u32::from_le_bytes(buf);
+            let num = u32::from_le_bytes(buf);
+            // Keep every column a residue of its prime, as hash_to_state does; a column in
+            // p..2^32 would otherwise underflow in invert_state and break the group laws.
+            *item = if num >= SETSUM_PRIMES[col] {
+                num - SETSUM_PRIMES[col]
+            } else {
+                num
+            };
         }
         Self { state }
     }
